@@ -209,6 +209,25 @@ def run(ctx):
                 ctx.violation('fuzz:' + (key or 'crash'), 'libFuzzer found a failing input for dec_h: %s' % (key,),
                               {'case.bin': data, 'fuzzer_log.txt': r.err[-30000:]}, dict(argv=r.argv[:4]))
             shutil.rmtree(art, ignore_errors=True); shutil.rmtree(work, ignore_errors=True)
-        core.pmap(fuzz, range(16))
+        core.pmap(fuzz, range(10))
         shutil.rmtree(corp, ignore_errors=True)
+        # encoder side: collect/encode/transmit -> retrieve/decode/emit with the packing-model and round-trip oracles
+        cexe = core.build_harness('fuzz_codec', 'codec_h.c', fz, cc='clang', link_repo=['decode.c', 'crctab.c', 'divbwt.c'])
+
+        def fuzz_codec(k):
+            art = core.tmpdir(); work = core.tmpdir()
+            r = core.run([cexe, '-seed=%d' % (ctx.seed * 100 + 50 + k), '-runs=%d' % 40000, '-max_len=6000', '-rss_limit_mb=6000',
+                          '-artifact_prefix=' + art + '/', '-print_final_stats=1', work],
+                         env={'ASAN_OPTIONS': 'detect_leaks=0:quarantine_size_mb=8'}, timeout=3000)
+            ctx.ev(40000)
+            m = re.search(rb'stat::number_of_executed_units: (\d+)', r.err)
+            ctx.count('libfuzzer_codec_executions', int(m.group(1)) if m else 0)
+            arts = os.listdir(art)
+            key = report_key(r.err)
+            if arts or key:
+                data = open(os.path.join(art, arts[0]), 'rb').read() if arts else b''
+                ctx.violation('fuzz-codec:' + (key or 'oracle-mismatch'), 'libFuzzer found a failing input for codec_h: %s %s' % (key, r.out[-300:]),
+                              {'case.bin': data, 'fuzzer_log.txt': r.err[-30000:]}, dict(argv=r.argv[:4]))
+            shutil.rmtree(art, ignore_errors=True); shutil.rmtree(work, ignore_errors=True)
+        core.pmap(fuzz_codec, range(6))
     ctx.assumptions = ['red-zone and shadow-memory tools miss non-adjacent and intra-object overflows; "held" means no report on these executions']
